@@ -1074,6 +1074,20 @@ fn main() {
             println!("missing={}", missing);
             println!("first_missing={}", first);
         }
+        // flush_bounds : the first user key of a flushed memtable has two versions; which key range is reported for the table?
+        "flush_bounds" => {
+            use raindb::WriteOptions;
+            let mut o = raindb::DbOptions::with_memory_env();
+            o.db_path = "db".to_string();
+            o.create_if_missing = true;
+            let db = raindb::DB::open(o).expect("open");
+            db.put(WriteOptions::default(), b"a".to_vec(), b"1".to_vec()).unwrap();
+            db.put(WriteOptions::default(), b"a".to_vec(), b"2".to_vec()).unwrap();
+            db.put(WriteOptions::default(), b"z".to_vec(), b"3".to_vec()).unwrap();
+            let _ = db.flush_for_verif();
+            let d = db.get_descriptor(raindb::db::DatabaseDescriptor::SSTables).map(|d| format!("{:?}", d)).unwrap_or_default();
+            println!("tables={}", d.replace("\\n", " "));
+        }
         "vs_recover" => {
             // a database is created, written and closed; a fresh version set recovers from its files
             use raindb::WriteOptions;
